@@ -264,7 +264,8 @@ def drive(case, monitors, learner_cls=None, step_limit=10 ** 7, wall_s=600, use_
                     if any(m.full() for m in monitors):
                         ctx.stopped = "monitor full"
                         break
-                if ctx.stopped is None and not case.get("no_last"):
+                if (ctx.stopped is None or (case.get("last_after_none") and str(ctx.stopped).startswith("pull returned"))) \
+                        and not case.get("no_last"):
                     phase = hub.phase = "last"
                     for m in monitors:
                         m.before_query(ctx)
